@@ -243,6 +243,8 @@ class Ranker(object):
         self.xs = set()
         self.ys = set()
         self.rx = self.ry = None
+        self.queries = {}
+        self.res = None
 
     def add(self, box):
         self.xs.update((box[0], box[2]))
@@ -252,6 +254,18 @@ class Ranker(object):
         if not self.lattice:
             self.rx = {v: i for i, v in enumerate(sorted(self.xs))}
             self.ry = {v: i for i, v in enumerate(sorted(self.ys))}
+
+    def lookup(self, level, bbox):
+        """the node box for which the walker queried get_affected_level_tiles(bbox, level); None if unknown"""
+        b = self.queries.get((level, tuple(bbox)))
+        if b is None:
+            # not bit-identical (another but equivalent float expression in the code): nearest known query
+            res = self.res[level]
+            cands = [(max(abs(q[i] - bbox[i]) for i in range(4)), bx) for (lv, q), bx in self.queries.items() if lv == level]
+            cands = [c for c in cands if c[0] < 1e-6 * res]
+            if len(cands) == 1:
+                b = cands[0][1]
+        return self.box(b) if b is not None else None
 
     def box(self, b):
         if self.lattice:
@@ -269,8 +283,60 @@ def limit(b, s):
     return (max(b[0], s[0]), max(b[1], s[1]), min(b[2], s[2]), min(b[3], s[3]))
 
 
-def measure(wd, max_nodes=6000):
+POLICY = {'value': None}
+
+
+def query_pad(wd, level, policy):
+    """how much the walker grows cur_bbox before it asks the grid for the affected tiles of `level`:
+    'level' - not at all (the grid's own inset of 1/10 pixel of `level` applies),
+    'last'  - so that 1/10 pixel of the LAST seeded level remains"""
+    if policy == 'level':
+        return 0.0
+    return max(0, (wd.grid.resolution(level) - wd.grid.resolution(wd.levels[-1])) / 10.0)
+
+
+def padded(box, pad):
+    return (box[0] - pad, box[1] - pad, box[2] + pad, box[3] + pad)
+
+
+def detect_policy():
+    """Which bbox does the walker under test hand to MetaGrid.get_affected_level_tiles for a node?  Observed on a
+    lattice probe (exact arithmetic); anything but the two known policies is a machinery error, not a verdict."""
+    if POLICY['value'] is not None:
+        return POLICY['value']
+    _bind_real_classes()
+    wd = lattice_world('probe', 'G2', ('bbox', [(90, 50, 410, 330)]), [0, 1, 2])
+    import mapproxy.seed.seeder as S
+    seen = []
+
+    class Probe(S_MetaGrid):
+        def get_affected_level_tiles(self, bbox, level):
+            seen.append((level, tuple(bbox)))
+            return S_MetaGrid.get_affected_level_tiles(self, bbox, level)
+
+    class Pool(object):
+        def process(self, tiles, progress):
+            pass
+
+    keep = S.MetaGrid
+    S.MetaGrid = Probe
+    try:
+        S.TileWalker(wd.task(), Pool(), handle_uncached=True).walk()
+    finally:
+        S.MetaGrid = keep
+    root = (90.0, 50.0, 410.0, 330.0)
+    first1 = [b for lv, b in seen if lv == 1][0]
+    for policy in ('level', 'last'):
+        if seen[0] == (0, padded(root, query_pad(wd, 0, policy))) and \
+                first1 == padded((90.0, 320.0, 320.0, 330.0), query_pad(wd, 1, policy)):
+            POLICY['value'] = policy
+            return policy
+    raise tlc.MachineryError('the walker queries the grid with an unknown bbox policy: %r' % (seen[:3],))
+
+
+def measure(wd, max_nodes=6000, policy=None):
     """Explore every (level, box) the spec can ask for; returns the raw (float) relation."""
+    policy = policy or detect_policy()
     from mapproxy.grid import MetaGrid
     g = wd.grid
     mg = MetaGrid(g, meta_size=wd.meta_size, meta_buffer=0)
@@ -278,6 +344,7 @@ def measure(wd, max_nodes=6000):
     root = tuple(cov.extent.bbox_for(g.srs))
     aff = {}
     tiles = {}
+    queries = {}
     last = wd.levels[-1]
     todo = [(0, root, False)]
     seen = set()
@@ -289,7 +356,9 @@ def measure(wd, max_nodes=6000):
         if len(seen) > max_nodes:
             return None
         if (level, box) not in aff:
-            _, (nx, ny), it = mg.get_affected_level_tiles(box, level)
+            q = padded(box, query_pad(wd, level, policy))
+            queries[(level, q)] = box
+            _, (nx, ny), it = mg.get_affected_level_tiles(q, level)
             lst = list(it)
             if len(lst) != nx * ny:
                 raise tlc.MachineryError('get_affected_level_tiles: %d tiles for grid %dx%d' % (len(lst), nx, ny))
@@ -305,7 +374,7 @@ def measure(wd, max_nodes=6000):
             mb, con, inter = tiles[t]
             if level < last and (forced2 or con or inter):
                 todo.append((level + 1, limit(box, mb), forced2 or con))
-    return root, aff, tiles
+    return root, aff, tiles, queries
 
 
 def build_world(wd, max_nodes=6000, plans=None):
@@ -313,7 +382,7 @@ def build_world(wd, max_nodes=6000, plans=None):
     m = measure(wd, max_nodes)
     if m is None:
         return None
-    root, aff, tiles = m
+    root, aff, tiles, queries = m
     boxes = [root] + [box for (level, box) in aff] + [mb for (mb, con, inter) in tiles.values()]
     # integer coordinates are used as they are; otherwise (float grids; a MultiCoverage extent goes through
     # EPSG:4326 and back) coordinates are replaced by their ranks
@@ -321,6 +390,8 @@ def build_world(wd, max_nodes=6000, plans=None):
     for b in boxes:
         rk.add(b)
     rk.freeze()
+    rk.queries = queries
+    rk.res = list(wd.grid.resolutions)
     must, coarse, allowed = Oracle(wd).sets()
     w = {
         'name': wd.name,
@@ -419,7 +490,7 @@ class Session(object):
             def get_affected_level_tiles(self, bbox, level):
                 res = S_MetaGrid.get_affected_level_tiles(self, bbox, level)
                 abbox, (nx, ny), it = res
-                box = sess.rk.box(tuple(bbox))
+                box = sess.rk.lookup(level, tuple(bbox))
                 sess.emit({'ev': 'enter', 'level': level, 'box': box if box is not None else [-9, -9, -9, -9],
                            'n': nx * ny})
                 return res
@@ -549,7 +620,8 @@ def lattice_world(name, grid, cov, levels, meta=(1, 1), skip=0, srs='EPSG:3857')
         raise ValueError(kind)
     return WorldDef(name, g, meta, c, levels, skip=skip, cov_rects=rects,
                     desc=dict(grid=grid, cov=[kind, [list(r) for r in rects]], levels=list(levels), meta=list(meta),
-                              skip=skip, srs=srs))
+                              skip=skip, srs=srs, lattice=[name, grid, [kind, [list(r) for r in rects]], list(levels),
+                                                           list(meta), skip, srs]))
 
 
 def catalogue(tier):
@@ -773,10 +845,9 @@ class Follower(object):
                 return True
             if forced:
                 # progress == 1.0 makes the code save regardless of the throttle: follow the code
-                self.forced_final = True
-                self.p += 1
                 self.steps += 1
-                return self.p >= len(self.beh) or self.beh[self.p][0] == 'Interrupt'
+                self.p = len(self.beh)
+                return True
         if name in ('Enter', 'EnterRoot'):
             st = _val(raw, 'stack')
             top = st[-1]
@@ -849,15 +920,22 @@ class Follower(object):
 # random driving of the real code (code -> spec)
 # ------------------------------------------------------------------------------------------------
 class RandomDriver(object):
-    def __init__(self, rng, cuts, p_save):
+    def __init__(self, rng, cuts, p_save, saves=None):
         self.rng = rng
         self.cuts = list(cuts)      # interrupt the k-th run after cuts[k] events (None/absent: run to the end)
         self.p_save = p_save
+        self.script = list(saves) if saves is not None else None     # replay: the recorded throttle decisions
+        self.saves = []
         self.sess = None
         self.count = 0
 
     def decide_save(self):
-        return self.rng.random() < self.p_save
+        if self.script is not None:
+            v = self.script[len(self.saves)] if len(self.saves) < len(self.script) else False
+        else:
+            v = self.rng.random() < self.p_save
+        self.saves.append(bool(v))
+        return v
 
     def after_event(self, ev):
         self.count += 1
@@ -866,7 +944,7 @@ class RandomDriver(object):
 
     def drive(self, wd, rk, workdir):
         sess = self.sess = Session(wd, rk, workdir, self.decide_save, self.after_event,
-                                   interrupt_exc=self.rng.choice([KeyboardInterrupt, _seed_interrupted()]))
+                                   interrupt_exc=[KeyboardInterrupt, _seed_interrupted()][sum(c or 0 for c in self.cuts) % 2])
         try:
             for _ in range(len(self.cuts) + 2):
                 self.count = 0
@@ -1030,9 +1108,11 @@ def _random_polygon(rng, box):
     return p
 
 
-def random_world(rng, idx, near_border=False):
-    """-> WorldDef (real float grid) or None"""
+def random_world(seed, idx, near_border=False):
+    """-> WorldDef (real float grid), a function of (seed, idx, near_border) only"""
+    import random
     import shapely.geometry
+    rng = random.Random('c11-world-%s-%d' % (seed, idx))
     import shapely.ops
     from mapproxy.srs import SRS
     from mapproxy.util.coverage import BBOXCoverage, GeomCoverage, MultiCoverage
@@ -1101,4 +1181,349 @@ def random_world(rng, idx, near_border=False):
         levels = list(range(max(0, last - rng.randint(0, 5)), last + 1))
     skip = rng.choice([0, 0, 0, 1, 2, 3])
     desc.update(levels=levels, meta=list(meta), skip=skip, near_border=near_border)
+    desc['random'] = [seed, idx, near_border]
     return WorldDef('r%d-%s-%s' % (idx, kind, ck), g, meta, cov, levels, skip=skip, cov_geom=geom, desc=desc)
+
+
+# ------------------------------------------------------------------------------------------------
+# the check
+# ------------------------------------------------------------------------------------------------
+def world_from_desc(desc):
+    if 'lattice' in desc:
+        name, grid, cov, levels, meta, skip, srs = desc['lattice']
+        return lattice_world(name, grid, (cov[0], [tuple(r) for r in cov[1]]), levels, tuple(meta), skip, srs)
+    seed, idx, near = desc['random']
+    return random_world(seed, idx, near)
+
+
+class Item(object):
+    """a world with everything measured on it"""
+
+    def __init__(self, wd, w, rk):
+        self.wd, self.w, self.rk = wd, w, rk
+        self.full = None        # hand-overs of the uninterrupted real run
+        self.nev = 0            # its number of events
+        self.excused = False    # a CompleteRunExact violation of this world has been reported
+
+
+def observe_full(ctx, it, workdir, traces, meta):
+    """uninterrupted real run: the property statement on it + its trace"""
+    drv = RandomDriver(ctx.rng, [], 0.5)
+    s0 = drv.drive(it.wd, it.rk, workdir)
+    it.full = list(s0.handed_runs[-1])
+    it.nev = len(s0.events)
+    if s0.anomalies:
+        ctx.violation({'clause': 'hand-over-shape'}, '%s: %s' % (it.wd.name, s0.anomalies[0]), {'world': it.wd.desc})
+    if check_observed(ctx, it.wd, it.w, it.full, None, ''):
+        it.excused = True
+    traces.append(s0.events)
+    meta.append((it, [], drv.saves))
+    ctx.count(('full', it.wd.name, len(it.full)))
+
+
+def observe_interrupted(ctx, it, workdir, traces, meta, nmax=3):
+    n = ctx.rng.randint(1, nmax)
+    cuts = [ctx.rng.randint(0, it.nev + 1) for _ in range(n)]
+    drv = RandomDriver(ctx.rng, cuts, ctx.rng.choice([0.2, 0.5, 0.9]))
+    s = drv.drive(it.wd, it.rk, workdir)
+    check_observed(ctx, it.wd, it.w, it.full, s, 'interrupted after %s events of the successive runs; throttle decisions %s' % (
+        cuts, ''.join('S' if x else '-' for x in drv.saves)))
+    traces.append(s.events)
+    meta.append((it, cuts, drv.saves))
+    ctx.count(('interrupted', it.wd.name, tuple(cuts), tuple(drv.saves)))
+    return s
+
+
+def report_rejections(ctx, r, rejected, traces, meta, what):
+    if rejected is None:
+        # an invariant failed on a recorded execution
+        lab = [a for a, _ in r.trace]
+        st = r.trace[-1][1] if r.trace else {}
+        tid = st.get('tid')
+        it, cuts, saves = meta[tid - 1] if tid else (None, None, None)
+        ctx.violation({'clause': r.violated, 'where': 'recorded-execution'},
+                      '%s: invariant %s fails on an execution recorded from the real code (%s, interrupted after %s events)' % (
+                          what, r.violated, it.wd.name if it else '?', cuts),
+                      {'kind': 'scripted', 'world': it.wd.desc if it else None, 'cuts': cuts, 'saves': saves})
+        return
+    for i, upto in rejected:
+        it, cuts, saves = meta[i]
+        e = traces[i][upto]
+        ctx.violation({'clause': 'trace-rejected', 'event': e['ev']},
+                      '%s: the execution recorded from %s (interrupted after %s events) is not a behaviour of Seeder.tla at '
+                      'event %d: %s' % (what, it.wd.name, cuts, upto, json.dumps(e)[:300]),
+                      {'kind': 'scripted', 'world': it.wd.desc, 'cuts': cuts, 'saves': saves})
+
+
+def model_checking(ctx, items, thorough):
+    worlds = [it.w for it in items]
+    # pass 1: uninterrupted runs of every world; the model lists the worlds where a selected tile is never requested
+    r = run_model(ctx, 'complete', worlds, 0, ['TypeOK', 'MissReport', 'NoOutside', 'CompleteRunCoarse', 'WalkIsFull',
+                                               'ReportedPathExact', 'SavedShape'], last_run_saves='both')
+    if r.violated:
+        confirm_counterexample(ctx, items, r, 'complete')
+    else:
+        ctx.add_tlc('Seeder/uninterrupted', r)
+    missed = {}
+    for rec in tlc.find_prints(r.out, 'missed'):
+        missed.setdefault(rec[1], set()).update(tuple(t) for t in rec[2])
+    for k, it in enumerate(items):
+        real = set(tuple(t) for t in it.w['must']) - set(it.full)
+        model = missed.get(k + 1, set())
+        if real != model:
+            ctx.violation({'clause': 'model-vs-code', 'what': 'missed tiles'},
+                          '%s: the model misses %s, the real walker misses %s' % (it.wd.name, sorted(model), sorted(real)),
+                          {'kind': 'miss', 'world': it.wd.desc})
+        if model:
+            it.excused = True
+            ctx.log('model and code agree: %s never requests %s' % (it.wd.name, sorted(model)))
+    excused = [k + 1 for k, it in enumerate(items) if it.excused]
+    # pass 2: every interruption point x every throttle decision x continued runs
+    runs = [('interrupt1', list(range(len(items))), 1)]
+    if thorough:
+        small = sorted(range(len(items)), key=lambda k: items[k].nev)[:max(6, len(items) // 2)]
+        runs.append(('interrupt2', small, 2))
+    for name, idxs, mi in runs:
+        sub = [items[k].w for k in idxs]
+        exc = [j + 1 for j, k in enumerate(idxs) if items[k].excused]
+        r = run_model(ctx, name, sub, mi, INVARIANTS, excused=exc, last_run_saves='yes', timeout=3000)
+        ctx.log('Seeder.tla %s: %r' % (name, r))
+        if r.violated:
+            confirm_counterexample(ctx, [items[k] for k in idxs], r, name)
+            continue
+        cov = action_coverage(r)
+        for a in ACTIONS:
+            if cov.get(a, (0, 0))[0] == 0:
+                raise tlc.MachineryError('Seeder.tla (%s): action %s was never taken (vacuous run)' % (name, a))
+        r.coverage = cov
+        ctx.add_tlc('Seeder/' + name, r)
+    return excused
+
+
+def confirm_counterexample(ctx, items, r, name):
+    """a property fails on the model: execute the counterexample on the real code before reporting anything"""
+    beh = beh_from_error_trace(r.trace)
+    wid = beh[0][2]['wid']
+    it = items[wid - 1]
+    d = ctx.sub('cex-' + name)
+    fo = Follower(beh, it.wd, it.rk, d)
+    div = fo.run()
+    cuts, saves = cuts_of(beh)
+    if div is None:
+        ctx.violation({'clause': r.violated, 'where': 'model-counterexample-reproduced'},
+                      '%s: TLC counterexample to %s (%d steps, world %s) was reproduced step by step on the real seeder' % (
+                          name, r.violated, len(beh), it.wd.name),
+                      {'kind': 'scripted', 'world': it.wd.desc, 'cuts': cuts, 'saves': saves,
+                       'actions': [a for a, _, _ in beh]})
+    else:
+        ctx.violation({'clause': 'replay', 'action': beh[div[0]][0] if div[0] < len(beh) else 'end'},
+                      '%s: model and code diverge while reproducing a counterexample to %s on %s at step %d: %s' % (
+                          name, r.violated, it.wd.name, div[0], div[1]),
+                      {'kind': 'scripted', 'world': it.wd.desc, 'cuts': cuts, 'saves': saves})
+
+
+def cuts_of(beh):
+    """events before each interruption / throttle decisions of a behaviour (for --replay)"""
+    cuts, saves = [], []
+    n = 0
+    prev = None
+    for name, args, raw in beh[1:]:
+        if name == 'Interrupt':
+            cuts.append(n)
+            n = 0
+        elif name == 'Continue':
+            n = 1
+        elif name != 'Dedup':
+            n += 1
+        if name in ('Report', 'FinalReport'):
+            if args:
+                saves.append(bool(args[0]))
+            else:
+                saves.append(prev is not None and _val(raw, 'saved') != _val(prev, 'saved'))
+        prev = raw
+    return cuts, saves
+
+
+def spec_to_code(ctx, items, thorough):
+    """TLC simulation behaviours with planned interruptions, executed on the real code"""
+    rng = ctx.rng
+    for it in items:
+        n = it.nev + 2
+        plans = [[]] + [[rng.randint(0, n)] for _ in range(3)] + [[rng.randint(0, n), rng.randint(0, n)] for _ in range(3)]
+        if thorough:
+            plans += [[rng.randint(0, n), rng.randint(0, n), rng.randint(0, n)] for _ in range(3)]
+        it.w['plans'] = plans
+    d = ctx.sub('sim')
+    wf = write_worlds(d, [it.w for it in items])
+    mp, cp = tlc.write_mc(d, 'Seeder', 'MC_Sim', dict(MaxInterrupts=3, LastRunSaves='both', Excused=set(), Planned=True))
+    prefix = os.path.join(d, 'beh')
+    num = len(items) * (12 if thorough else 5)
+    r = tlc.run(mp, cp, d, workers=1, simulate='file=%s,num=%d' % (prefix, num), depth=6000, seed=ctx.seed + 7,
+                coverage=False, timeout=1500, env={'WORLD_FILE': wf})
+    files = [f for f, _ in _sim_files(prefix)]
+    if not files:
+        raise tlc.MachineryError('no Seeder behaviours from TLC: ' + r.out[-1500:])
+    seen = set()
+    acts = set()
+    for f in files:
+        beh = parse_sim_light(f)
+        if len(beh) < 2:
+            continue
+        key = (beh[0][2]['wid'], beh[0][2]['plan'], tuple(str(a) for n_, a, _ in beh if n_ in ('Report', 'FinalReport')))
+        if key in seen:
+            continue
+        seen.add(key)
+        it = items[_val(beh[0][2], 'wid') - 1]
+        fo = Follower(beh, it.wd, it.rk, d)
+        div = fo.run()
+        ctx.cov['replayed_behaviours'] += 1
+        ctx.cov['replayed_steps'] += fo.steps
+        ctx.count(('replay', it.wd.name, key[1], key[2]))
+        acts.update(a for a, _, _ in beh)
+        if len(seen) == 1:
+            ctx.sample({'kind': 'TLC behaviour of Seeder replayed on the real seeder', 'world': it.wd.name,
+                        'plan': key[1], 'actions': [a + (str(tuple(x)) if x else '') for a, x, _ in beh[1:14]]})
+        if div is not None:
+            cuts, saves = cuts_of(beh)
+            ctx.violation({'clause': 'replay', 'action': beh[div[0]][0] if div[0] < len(beh) else 'end'},
+                          'world %s, interruption plan %s: model and code diverge at step %d: %s' % (
+                              it.wd.name, key[1], div[0], div[1]),
+                          {'kind': 'scripted', 'world': it.wd.desc, 'cuts': cuts, 'saves': saves})
+    for a in ACTIONS:
+        if a not in acts:
+            raise tlc.MachineryError('no replayed behaviour contains action %s' % a)
+    ctx.log('replayed %d distinct TLC behaviours (%d steps) on the real seeder' % (len(seen), ctx.cov['replayed_steps']))
+
+
+def _sim_files(prefix):
+    import glob
+    files = sorted(glob.glob(prefix + '*'), key=lambda p: [int(x) for x in re.findall(r'\d+', os.path.basename(p))])
+    return [(f, None) for f in files if os.path.isfile(f)]
+
+
+def code_to_spec(ctx, items, name, per_world, nmax=3):
+    d = ctx.sub('rec-' + name)
+    traces, meta = [], []
+    for it in items:
+        if it.full is None:
+            observe_full(ctx, it, d, traces, meta)
+        else:
+            # the uninterrupted run was observed before; record it again as a trace
+            drv = RandomDriver(ctx.rng, [], 0.5)
+            s0 = drv.drive(it.wd, it.rk, d)
+            traces.append(s0.events)
+            meta.append((it, [], drv.saves))
+        for _ in range(per_world):
+            observe_interrupted(ctx, it, d, traces, meta, nmax)
+    idx = {id(it): k + 1 for k, it in enumerate(items)}
+    batch = [{'w': idx[id(m[0])], 'ev': ev} for ev, m in zip(traces, meta)]
+    exc = [k + 1 for k, it in enumerate(items) if it.excused]
+    r, rejected = validate_traces(ctx, name, [it.w for it in items], batch, excused=exc)
+    report_rejections(ctx, r, rejected, traces, meta, name)
+    if rejected is not None:
+        ctx.cov['traces_validated_against_impl'] += len(traces) - len(rejected)
+        ctx.cov['states'] += r.distinct
+        ctx.cov['transitions'] += r.generated
+    ctx.log('%s: %d recorded executions of %d worlds validated by TLC (%s rejected), %d events' % (
+        name, len(traces), len(items), 'invariant failed' if rejected is None else len(rejected), sum(len(t) for t in traces)))
+    if traces:
+        ctx.sample({'kind': 'execution recorded from the real seeder, validated by Trace_Seeder', 'world': meta[-1][0].wd.name,
+                    'interrupted_after_events': meta[-1][1], 'events': [{k: v for k, v in e.items()} for e in traces[-1][:4]]})
+
+
+def random_items(ctx, n, max_nodes):
+    items = []
+    idx = 0
+    tries = 0
+    while len(items) < n and tries < 20 * n:
+        tries += 1
+        idx += 1
+        wd = random_world(ctx.seed, idx, near_border=(idx % 6 == 0))
+        try:
+            bw = build_world(wd, max_nodes=max_nodes)
+        except tlc.MachineryError:
+            raise
+        if bw is None:
+            continue
+        w, rk = bw
+        if len(json.dumps(w)) > 400000:
+            continue
+        items.append(Item(wd, w, rk))
+    return items
+
+
+def run(ctx):
+    thorough = ctx.tier == 'thorough'
+    tlc.sany(SPEC)
+    import shutil
+    sd = ctx.sub('sany')
+    for f in (SPEC, TRACE_SPEC):
+        shutil.copy(f, sd)
+    tlc.sany(os.path.join(sd, 'Trace_Seeder.tla'))
+    _bind_real_classes()
+    policy = detect_policy()
+    ctx.log('walker queries the grid per node with the inset of the %s level' % ('queried' if policy == 'level' else 'last seeded'))
+
+    # lattice worlds
+    items = []
+    for row in catalogue(ctx.tier):
+        wd = lattice_world(*row)
+        w, rk = build_world(wd)
+        items.append(Item(wd, w, rk))
+    d = ctx.sub('lattice')
+    traces, meta = [], []
+    for it in items:
+        observe_full(ctx, it, d, traces, meta)
+    ctx.sample({'kind': 'lattice world', 'world': items[0].wd.desc, 'must': len(items[0].w['must']),
+                'allowed': len(items[0].w['allowed']), 'nodes': len(items[0].w['aff'])})
+
+    # (M)
+    model_checking(ctx, items, thorough)
+    # (R)
+    spec_to_code(ctx, items, thorough)
+    # (T) lattice worlds and random real grids
+    code_to_spec(ctx, items, 'lattice', 4 if thorough else 2)
+    ritems = random_items(ctx, 150 if thorough else 40, 2500 if thorough else 1200)
+    code_to_spec(ctx, ritems, 'random', 4 if thorough else 2)
+
+    ctx.assumptions += [
+        'work done = (meta) tiles handed to the worker pool (the observation point the property names); tiles lost inside the '
+        'worker queue of a killed process are outside the statement',
+        'every tile is uncached (handle_uncached with an empty cache), work_on_metatiles=True, levels ascending as '
+        'mapproxy.seed.config produces them; rescale_tiles tasks (single level, single tiles) are not covered',
+        'a meta tile whose overlap with the coverage is thinner than 1/10 pixel of its own level may or may not be requested '
+        '(2/10 pixel for float grids); a meta tile that only touches the coverage may be requested',
+        'the progress throttle is a free boolean per report; progress == 1.0 (forced save of the final report) is followed, '
+        'not predicted',
+        'geometry (get_affected_level_tiles, meta tile bbox, coverage.contains/intersects) enters the model as constants '
+        'measured on the real objects; the expected sets are computed without them',
+    ]
+    return ctx.finish('model_checking',
+                      'TLC: Seeder.tla exhaustively over the lattice catalogue x all interruption points x all throttle '
+                      'decisions; distinct = distinct (world, interruption plan, throttle decisions) replays and recorded executions')
+
+
+def replay(ctx, data):
+    case = data.get('case') or {}
+    _bind_real_classes()
+    detect_policy()
+    if not case.get('world'):
+        print('nothing to replay')
+        return 0
+    wd = world_from_desc(case['world'])
+    w, rk = build_world(wd)
+    it = Item(wd, w, rk)
+    d = ctx.sub('replay')
+    traces, meta = [], []
+    observe_full(ctx, it, d, traces, meta)
+    if case.get('kind') == 'scripted' or case.get('cuts'):
+        drv = RandomDriver(ctx.rng, case.get('cuts') or [], 0.5, saves=case.get('saves') or [])
+        s = drv.drive(wd, rk, d)
+        check_observed(ctx, wd, w, it.full, s, 'replay')
+        traces.append(s.events)
+        meta.append((it, case.get('cuts'), drv.saves))
+    batch = [{'w': 1, 'ev': ev} for ev in traces]
+    r, rejected = validate_traces(ctx, 'replay', [w], batch, excused=[1] if it.excused else [])
+    report_rejections(ctx, r, rejected, traces, meta, 'replay')
+    print('replay: %d violation(s)' % len(ctx.violations))
+    return 1 if ctx.violations else 0
